@@ -6,7 +6,7 @@
     in order, absent-actions of skipped slots, unknown non-critical element, exhausted `progress`):
     the digest-covered bytes are a contiguous range of the Interest value that starts at the context's
     `digestCoverStart`, and that marker is either still at its initial value 0 or at the start of an
-    element
+    element (or at the end of the value)
   * `parseInterest_digest`: the resulting all-input fact about `parseInterest`
   * `parseInterest_name_ti`: the decoded Name depends only on the first element
   * `bitflip_detected_interest_digest`
@@ -71,14 +71,18 @@ theorem absFold_K_ti (V : Bytes) (lo m : Nat) (N : Option Name) (x : Nat) (r : R
     exact ih (q + 1) _ (absent_K_ti R V lo m N st q x r p ha hx h)
 
 theorem readNat_gen_ti (r r' : Rd) (buf : Bytes) (p l w x : Nat) (h : At r buf p)
-    (e : readNat r l w = .ok (x, r')) : At r' buf (p + l) := by
+    (e : readNat r l w = .ok (x, r')) : ∃ p', p ≤ p' ∧ At r' buf p' := by
   simp only [readNat] at e
   split at e
-  · cases e
-  · obtain ⟨⟨v, r1⟩, e1, e2⟩ := bind_ok_inv e
-    simp at e2
-    obtain ⟨_, rfl⟩ := e2
-    exact (readBytesAcc_gen R l r r1 buf p 0 v h e1).2.2.1
+  · -- negative `int(l)`: zero iterations, reader unchanged
+    obtain ⟨_, rfl⟩ : 0 = x ∧ r = r' := by simpa using e
+    exact ⟨p, Nat.le_refl _, h⟩
+  · split at e
+    · cases e
+    · obtain ⟨⟨v, r1⟩, e1, e2⟩ := bind_ok_inv e
+      simp at e2
+      obtain ⟨_, rfl⟩ := e2
+      exact ⟨p + l, by omega, (readBytesAcc_gen R l r r1 buf p 0 v h e1).2.2.1⟩
 
 /-- every element handler of the Interest model: on success the reader is healthy at a position not
     before the old one; the digest bookkeeping is untouched; only slot 2 sets the Name -/
@@ -113,13 +117,13 @@ theorem interestHandle_gen_ti (R2 : ReaderSpecs2) (k : Nat) (st st' : InterestSt
             obtain ⟨⟨x, r1⟩, e1, e2⟩ := bind_ok_inv e
             simp at e2
             obtain ⟨rfl, rfl⟩ := e2
-            exact ⟨⟨p + l, by omega, readNat_gen_ti R r r1 V p l 32 x h e1⟩, rfl, rfl, fun _ => rfl⟩
+            exact ⟨readNat_gen_ti R r r1 V p l 32 x h e1, rfl, rfl, fun _ => rfl⟩
           · split at e
             · -- InterestLifetime
               obtain ⟨⟨x, r1⟩, e1, e2⟩ := bind_ok_inv e
               simp at e2
               obtain ⟨rfl, rfl⟩ := e2
-              exact ⟨⟨p + l, by omega, readNat_gen_ti R r r1 V p l 64 x h e1⟩, rfl, rfl, fun _ => rfl⟩
+              exact ⟨readNat_gen_ti R r r1 V p l 64 x h e1, rfl, rfl, fun _ => rfl⟩
             · split at e
               · -- HopLimit
                 split at e
@@ -129,7 +133,7 @@ theorem interestHandle_gen_ti (R2 : ReaderSpecs2) (k : Nat) (st st' : InterestSt
                   · simp at e; obtain ⟨rfl, rfl⟩ := e
                     exact ⟨⟨p + 1, by omega, a1⟩, rfl, rfl, fun _ => rfl⟩
                   · cases e
-                · split at e <;> cases e
+                · cases e
                 · cases e
                 · cases e
                 · cases e
@@ -204,7 +208,7 @@ theorem ordLoop_inv_ti (V : Bytes) (lo m : Nat) (N : Option Name) (typ l sp p : 
           obtain ⟨⟨rfl, rfl⟩, rfl⟩ := e2
           obtain ⟨hle, a1⟩ := skip_gen R r r1 V p l ha hlive e1
           obtain ⟨k1, k2, k3, k4, ⟨n, k5, k5'⟩, k6, k7⟩ := hj
-          exact ⟨p + l, by omega, a1, by omega, by omega, k3, fun _ => k4 (by omega), ⟨n, k5, by omega⟩, by omega, k7⟩
+          exact ⟨p + l, by omega, a1, by omega, by omega, k3, k4, ⟨n, k5, by omega⟩, k6, k7⟩
 
 /-- the whole element loop of `InterestParsingContext.Parse` preserves the invariant -/
 theorem intLoop_inv_ti (V : Bytes) (lo m : Nat) (N : Option Name) : ∀ (fuel : Nat) (st : InterestSt) (q : Nat) (r : Rd) (p : Nat),
@@ -226,13 +230,11 @@ theorem intLoop_inv_ti (V : Bytes) (lo m : Nat) (N : Option Name) : ∀ (fuel : 
       obtain ⟨⟨l, r2⟩, e3, e4⟩ := bind_ok_inv e2
       obtain ⟨h2, hl, _, _, a2, l2⟩ := readTL_gen R r1 r2 V _ l a1 e3
       simp only [] at e4
-      split at e4
-      · cases e4
-      · obtain ⟨⟨⟨st1, q1⟩, r3⟩, e5, e6⟩ := bind_ok_inv e4
-        simp only [interestBody] at e5
-        obtain ⟨p3, _, a3, j3⟩ := ordLoop_inv_ti R R2 V lo m N typ l p (p + h1 + h2) (by omega) 17 q st r2 a2 l2 hj
-          st1 q1 r3 e5
-        exact ih st1 q1 r3 p3 a3 j3 st' q' r' e6
+      obtain ⟨⟨⟨st1, q1⟩, r3⟩, e5, e6⟩ := bind_ok_inv e4
+      simp only [interestBody] at e5
+      obtain ⟨p3, _, a3, j3⟩ := ordLoop_inv_ti R R2 V lo m N typ l p (p + h1 + h2) (by omega) 17 q st r2 a2 l2 hj
+        st1 q1 r3 e5
+      exact ih st1 q1 r3 p3 a3 j3 st' q' r' e6
 
 /-- the state `parseInterest` returns satisfies the invariant whenever some intermediate loop state
     (reached from the fresh start, `Reach`) does -/
@@ -256,10 +258,8 @@ theorem parseInterest_from_ti (V : Bytes) (lo m : Nat) (N : Option Name) (r0 : R
     the context's `digestCoverStart` marker.
 
     (The form "a SUFFIX of `V` starting at the ApplicationParameters element" does NOT hold for all
-    input: an element after `progress` has passed slot 13 makes the slot-14 action run with the start
-    of THAT element as the end of the range; an unknown non-critical element arriving at slot 14 skips
-    the action altogether and leaves `digestCovered` empty; unknown elements arriving at slots 9/10
-    leave the start marker at 0.  See the counterexample notes at the end of this file.) -/
+    input: a known element arriving out of order after ApplicationParameters makes the slot-14 action
+    run with the start of THAT element as the end of the range.  See the notes at the end of this file.) -/
 theorem parseInterest_digest (r : Rd) (V : Bytes) (s : InterestSt) :
     At r V 0 → parseInterest {} r = .ok s →
     ∃ n, s.digestCoverStart + n ≤ V.length ∧ s.digestCovered = (V.drop s.digestCoverStart).take n := by
@@ -480,20 +480,18 @@ theorem nameLoop_pos_ti (R : ReaderSpecs) : ∀ (fuel : Nat) (r r' : Rd) (buf : 
       obtain ⟨⟨l, r2⟩, e3, e4⟩ := bind_ok_inv e2
       obtain ⟨k2, _, _, _, a2, _⟩ := readTL_gen R r1 r2 buf _ l a1 e3
       simp only [] at e4
-      split at e4
-      · cases e4
-      · obtain ⟨⟨v, r3⟩, e5, e6⟩ := bind_ok_inv e4
-        obtain ⟨_, _, a3⟩ := readBuf_gen R r2 r3 buf _ l v a2 e5
-        simp only [] at e6
-        obtain ⟨a4, hs⟩ := ih r3 r' buf _ en _ n _ s' a3 e6
-        refine ⟨a4, ?_⟩
-        split at hs
-        · rcases hs with hs | hs
-          · exact Or.inr ⟨by omega, by omega⟩
-          · exact Or.inr ⟨by omega, hs.2⟩
-        · rcases hs with hs | hs
-          · exact Or.inl hs
-          · exact Or.inr ⟨by omega, hs.2⟩
+      obtain ⟨⟨v, r3⟩, e5, e6⟩ := bind_ok_inv e4
+      obtain ⟨_, _, a3⟩ := readBuf_gen R r2 r3 buf _ l v a2 e5
+      simp only [] at e6
+      obtain ⟨a4, hs⟩ := ih r3 r' buf _ en _ n _ s' a3 e6
+      refine ⟨a4, ?_⟩
+      split at hs
+      · rcases hs with hs | hs
+        · exact Or.inr ⟨by omega, by omega⟩
+        · exact Or.inr ⟨by omega, hs.2⟩
+      · rcases hs with hs | hs
+        · exact Or.inl hs
+        · exact Or.inr ⟨by omega, hs.2⟩
 
 /-- an Interest value that starts with a Name header (type 7, length `L`): a successful parse decoded
     the Name element first; the name part of the signed range is `V[p2, sigEnd)` with `sigEnd` inside
@@ -684,32 +682,27 @@ theorem bitflip_detected_interest_name_all (E : EncSpecs)
   bitflip_detected_interest_name readerSpecs E (parseSigInfo_at readerSpecs E) i sign H e fn hv hH hm hest
     b' k hlen hk hsame hreg r hr p cov
 
-/-! ### notes: what the all-input invariant does NOT give (concrete inputs, evaluated on the model)
+/-! ### notes: why `parseInterest_digest` is stated for a range, not for a suffix
 
-  In the MODEL (`C03/Parse.lean`) the digest-covered range is `V[digestCoverStart, digestCoverStart + n)`,
-  not necessarily the suffix that starts at the ApplicationParameters element:
+  The digest-covered range is `V[digestCoverStart, digestCoverStart + n)`; it is NOT on all input the
+  suffix of the Interest value that starts at the ApplicationParameters element: a KNOWN element that
+  arrives out of order after ApplicationParameters (its slot is already behind `progress`) makes the
+  `progress` loop run all remaining absent-actions, the slot-14 action among them, with the start of
+  THAT element as the end of the range (and consumes nothing).  Interest value
+  `07 25 | 08 01 61 | 02 20 SHA256(24 03 01 02 03) || 24 03 01 02 03 || 0a 00`
+  (Name /a/params-sha256=e6a19fa8…, ApplicationParameters 010203, then an empty Nonce element) is accepted
+  by the model's `readInterest Sha.sha256` AND by the Go decoder (`spec.Spec{}.ReadInterest` of the checked
+  tree): the digest covers the ApplicationParameters element only, the trailing element is ignored
+  (`nonce = none`).  So a `parseInterest_digest_suffix` does not hold, for the model and for the code alike.
 
-  * an unknown non-critical element that arrives when `progress` stands at slot 14 (i.e. after
-    ApplicationParameters and two further elements, known or unknown) advances `progress` WITHOUT the
-    slot-14 action (`ordLoop`, branch `none`: `q + 1`), and `ordFinish` has nothing left to do:
-    `digestCovered` stays empty, so `checkInterest` compares the digest component with `H []`.
-    Interest value
-    `07 25 | 08 01 61 | 02 20 SHA256("") || 24 03 01 02 03 || 26 00 || 26 00 || 26 00`
-    (Name /a/params-sha256=e3b0c442…, ApplicationParameters 010203, three unknown elements of type 38)
-    is accepted by the model's `readInterest Sha.sha256`; so is
-    `… || 24 03 09 09 09 || 2c 03 1b 01 00 || 2e 02 07 07 || 26 00` (signed, one trailing unknown element).
-    The same value without the trailing unknown elements is rejected.
-  * a known element after `progress` has passed slot 13 ends the range at the start of that element.
-
-  MODEL DIVERGENCE, not a decoder defect: the Go decoder (`spec.Spec{}.ReadInterest` of the checked tree,
-  run on exactly these two packets) REJECTS both ("the sha256 digest is missing or incorrect").  The
-  generated `Parse` finishes by `handled_<field>` flags (every marker not set in the loop is set at the
-  end, whatever `progress` is), and since the fix "ordered TLV models lose the field following an
-  unknown element" a skipped unknown element no longer advances `progress`; the model's `none` branch
-  (`q + 1`) and its progress-based `ordFinish` describe neither.
+  (With the parser model of before the re-sync — unknown non-critical elements consumed a slot — there
+  were two more cases, an empty range and a start marker left at 0; both are gone: the two packets found
+  then, `… || 24 03 01 02 03 || 26 00 || 26 00 || 26 00` and `… || 24 03 09 09 09 || 2c 03 1b 01 00 ||
+  2e 02 07 07 || 26 00` with digest component SHA256(""), are rejected by the re-synced model, as they are
+  by the Go decoder.)
 
   None of this affects `bitflip_detected_interest_digest`: the hash of whatever range is compared would
-  have to collide with the original digest input (`hinj`); and the proofs of `K_ti` do not depend on
-  whether the `none` branch advances `q`. -/
+  have to collide with the original digest input (`hinj`), and a range of the right length that starts at
+  or after the end of the unchanged head part is the altered portion itself. -/
 
 end Ndn.C12
